@@ -153,7 +153,7 @@ def run(rec, cfg):
     inner = [(l, r) for l, r in rules if l in ("AG", "CS", "DF", "DF:c", "CA", "VM")]
     first = [(l, r) for l, r in rules if l == "DM"]
     for i in range(cfg.scale(90, 6000)):
-        if cfg.out_of_time():
+        if cfg.elapsed() > 0.3 * cfg.deadline_s:      # (the directed episodes get a third of the budget at most)
             break
         text = WE.Filler(rng).fill(rng.choice(DUP_TEMPLATES))
         root = RC.parse_start(text)
